@@ -16,6 +16,8 @@ Proof. unfold itemsN. rewrite map_map. reflexivity. Qed.
 (* the stricter token conversion of parse_graphic_sequence (F33) agrees with norm_item on integers and on printed numbers *)
 Lemma norm_items_pgs_ints cs : map norm_item_pgs (itemsN cs) = itemsN cs.
 Proof. unfold itemsN. rewrite map_map. reflexivity. Qed.
+Lemma prep_items_ints cs : map prep_item (itemsN cs) = itemsN cs.
+Proof. unfold itemsN. rewrite map_map. reflexivity. Qed.
 
 Lemma dec_N_digits x : forallb is_digit (dec (Z.of_N x)) = true.
 Proof. destruct x as [|p]; [reflexivity|]. cbn [Z.of_N dec]. apply DecProofs.decN_digits. Qed.
@@ -201,7 +203,7 @@ Proof.
   destruct cs as [|c r]; [congruence|].
   change (itemsN (c :: r)) with (IInt (Z.of_N c) :: itemsN r).
   change (IInt (Z.of_N c) :: itemsN r) with (itemsN (c :: r)).
-  rewrite norm_items_pgs_ints. change (@nil Z) with (map Z.of_N []). apply pgs_loop_N.
+  rewrite prep_items_ints, norm_items_pgs_ints. change (@nil Z) with (map Z.of_N []). apply pgs_loop_N.
 Qed.
 
 (* ---------- dictionaries against terminal states ---------- *)
@@ -544,7 +546,7 @@ Proof.
   destruct cs as [|c r]; [congruence|].
   change (itemsN (c :: r)) with (IInt (Z.of_N c) :: itemsN r).
   change (IInt (Z.of_N c) :: itemsN r) with (itemsN (c :: r)).
-  rewrite norm_items_pgs_ints. exact (pgs_loop_ae (c :: r) 0%nat []).
+  rewrite prep_items_ints, norm_items_pgs_ints. exact (pgs_loop_ae (c :: r) 0%nat []).
 Qed.
 
 (* ---------- ';'-separated string input = list input ---------- *)
@@ -566,5 +568,5 @@ Proof.
     destruct (dec (Z.of_N x)) as [|d0 d] eqn:Ed; [congruence|]. cbn [is_nil]. rewrite <- Ed.
     rewrite norm_item_pgs_dec. unfold norm_item. now rewrite parse_int_dec. }
   destruct (textN cs) as [|w0 w] eqn:Ew; [congruence|]. rewrite Hitems.
-  destruct cs as [|c r]; [congruence|]. reflexivity.
+  destruct cs as [|c r]; [congruence|]. rewrite prep_items_ints. reflexivity.
 Qed.
